@@ -243,6 +243,8 @@ def run(ctx: Ctx) -> Result:
         shutil.rmtree(work, ignore_errors=True)
 
     by_id = {j["id"]: j for j in jobs}
+    # generation order (simplest first) decides which manifestation of a signature is reported first
+    global_pos = {u["name"]: i for i, u in enumerate(u for f in sorted(fam) for u in fam[f])}
     tot: Counter[str] = Counter()
     fam_evals: Counter[str] = Counter()
     fam_units: Counter[str] = Counter()
@@ -271,7 +273,7 @@ def run(ctx: Ctx) -> Result:
         units = {u["name"]: u for u in job["units"]}
         for n in b["kept"]:
             expected.add((jid, n))
-        pos = {n: i for i, n in enumerate(units)}
+        pos = global_pos
         for ch in o["chunks"]:
             herr.extend(ch["harness_errors"])
             for c in ch["crashes"]:
